@@ -49,10 +49,23 @@ type c17Config struct {
 	Name    string `dials:"name"`
 	Limit   int    `dials:"limit"`
 	Keep    string `dials:"keep"`
+	// Lo comes from the second watched file, Hi from the main one; Verify
+	// couples them. With the defaults every stack verifies.
+	Lo int `dials:"lo"`
+	Hi int `dials:"hi"`
+}
+
+// Verify makes c17Config a dials.VerifiedConfig: a stack is only installed
+// when lo <= hi.
+func (c c17Config) Verify() error {
+	if c.Lo > c.Hi {
+		return fmt.Errorf("lo (%d) is above hi (%d)", c.Lo, c.Hi)
+	}
+	return nil
 }
 
 func c17Defaults() c17Config {
-	return c17Config{Counter: -1, Name: "dflt", Limit: 100, Keep: "keep"}
+	return c17Config{Counter: -1, Name: "dflt", Limit: 100, Keep: "keep", Lo: 0, Hi: 1 << 30}
 }
 
 // C17Doc describes one valid document by construction.
@@ -60,7 +73,10 @@ type C17Doc struct {
 	Counter int     `json:"counter"`
 	Name    *string `json:"name,omitempty"`
 	Limit   *int    `json:"limit,omitempty"`
-	Style   int     `json:"style"` // 0..3, formatting variant
+	// Bound: "hi" in a document of the main file, "lo" in one of the second
+	// file (coupled by Verify: lo <= hi).
+	Bound *int `json:"bound,omitempty"`
+	Style int  `json:"style"` // 0..3, formatting variant
 }
 
 // expect is the oracle: the defaults overlaid with the fields the document
@@ -76,6 +92,9 @@ func (d C17Doc) over(c c17Config) c17Config {
 	if d.Limit != nil {
 		c.Limit = *d.Limit
 	}
+	if d.Bound != nil {
+		c.Hi = *d.Bound
+	}
 	return c
 }
 
@@ -88,6 +107,9 @@ func (d C17Doc) render(dec string) []byte {
 	}
 	if d.Limit != nil {
 		kvs = append(kvs, kv{"limit", fmt.Sprint(*d.Limit)})
+	}
+	if d.Bound != nil {
+		kvs = append(kvs, kv{"hi", fmt.Sprint(*d.Bound)})
 	}
 	var b strings.Builder
 	if dec == "json" {
@@ -169,27 +191,41 @@ func c17SecondOver(d C17Doc, c c17Config) c17Config {
 	if d.Limit != nil {
 		c.Limit = *d.Limit
 	}
+	if d.Bound != nil {
+		c.Lo = *d.Bound
+	}
 	return c
 }
 
 func c17SecondRender(d C17Doc, dec string) []byte {
-	keep := fmt.Sprintf(`"k%d"`, d.Counter)
-	if dec == "json" {
-		switch {
-		case d.Limit == nil:
-			return []byte(`{"keep": ` + keep + `}`)
-		case d.Style%2 == 0:
-			return []byte(fmt.Sprintf(`{"keep":%s,"limit":%d}`, keep, *d.Limit))
+	kvs := [][2]string{{"keep", fmt.Sprintf(`"k%d"`, d.Counter)}}
+	if d.Limit != nil {
+		kvs = append(kvs, [2]string{"limit", fmt.Sprint(*d.Limit)})
+	}
+	if d.Bound != nil {
+		kvs = append(kvs, [2]string{"lo", fmt.Sprint(*d.Bound)})
+	}
+	if d.Style%2 == 1 { // reversed
+		for i, j := 0, len(kvs)-1; i < j; i, j = i+1, j-1 {
+			kvs[i], kvs[j] = kvs[j], kvs[i]
 		}
-		return []byte(fmt.Sprintf("{\n  \"limit\": %d,\n  \"keep\": %s\n}\n", *d.Limit, keep))
 	}
-	if d.Limit == nil {
-		return []byte("keep: " + keep + "\n")
+	var b strings.Builder
+	if dec == "json" {
+		b.WriteString("{")
+		for i, e := range kvs {
+			if i > 0 {
+				b.WriteString(", ")
+			}
+			fmt.Fprintf(&b, `"%s": %s`, e[0], e[1])
+		}
+		b.WriteString("}\n")
+		return []byte(b.String())
 	}
-	if d.Style%2 == 0 {
-		return []byte(fmt.Sprintf("keep: %s\nlimit: %d\n", keep, *d.Limit))
+	for _, e := range kvs {
+		fmt.Fprintf(&b, "%s: %s\n", e[0], e[1])
 	}
-	return []byte(fmt.Sprintf("{limit: %d, keep: %s}\n", *d.Limit, keep))
+	return []byte(b.String())
 }
 
 const c17LeadKeep = "lead"
@@ -234,6 +270,11 @@ func c17Decoder(dec string) dials.Decoder {
 
 // C17Op is one file operation.
 type C17Op struct {
+	// "eloop": a symlink that points at itself is renamed over the regular
+	// config file, so the path cannot be opened for a reason other than
+	// "does not exist" (ELOOP, also for root); content must be "bad". The
+	// next operation on the main file replaces the path wholesale (rename,
+	// delrec, swap, retarget, rollback or rmdir; not identical content).
 	// "other" (only with a second watched file): the SECOND file gets the
 	// document Doc (content must be "new"; sub: in place instead of
 	// rename-over); the main file is not touched.
@@ -248,13 +289,23 @@ type C17Op struct {
 	PauseMS int    `json:"pause_ms"`          // pause after this operation, before the next one
 }
 
+// c17ReplacesPath: the operation works when the regular file has been
+// replaced by something that cannot be opened.
+func c17ReplacesPath(o C17Op) bool {
+	switch o.Mech {
+	case "rename", "delrec", "swap", "retarget", "rollback", "rmdir":
+		return o.Content != "same"
+	}
+	return false
+}
+
 // moves: the operation makes the watched path resolve to another file in
 // (possibly) another directory.
 func (o C17Op) moves() bool { return o.Mech == "swap" || o.Mech == "retarget" }
 
 // kind is the operation class of the property statement.
 func (o C17Op) kind() string {
-	if o.Mech == "rollback" || o.Mech == "other" {
+	if o.Mech == "rollback" || o.Mech == "other" || o.Mech == "eloop" {
 		return o.Mech
 	}
 	switch o.Content {
@@ -411,9 +462,23 @@ func (s C17Setup) validate() error {
 }
 
 func c17ValidOps(s C17Setup, ops []C17Op, counters map[int]bool, extraPause map[int]bool) error {
+	loop := false // the main path currently is a self-referential symlink
 	for i, o := range ops {
+		switch {
+		case o.Mech == "other":
+		case o.Mech == "eloop":
+			if loop || o.Content != "bad" || o.GapMS != 0 {
+				return fmt.Errorf("op %d: eloop needs content bad, no gap, and a regular file to replace", i)
+			}
+			loop = true
+		case loop:
+			if !c17ReplacesPath(o) {
+				return fmt.Errorf("op %d: the operation after an eloop must replace the path", i)
+			}
+			loop = false
+		}
 		switch o.Mech {
-		case "inplace", "rename", "delrec":
+		case "inplace", "rename", "delrec", "eloop":
 		case "rmdir":
 		case "other":
 			if s.Second == nil || o.Content != "new" || o.GapMS != 0 {
@@ -500,7 +565,7 @@ func genC17Setup(t *rapid.T) C17Setup {
 	case "link":
 		s.Link = rapid.SampledFrom([]string{"same", "sub"}).Draw(t, "link")
 	}
-	if rapid.IntRange(0, 3).Draw(t, "second") == 2 {
+	if rapid.IntRange(0, 2).Draw(t, "second") == 2 {
 		d := genC17Doc(t, 700)
 		s.Second = &d
 	}
@@ -531,6 +596,10 @@ func genC17Mech(t *rapid.T, s C17Setup, atomicOnly, rmdirOK bool) string {
 		if die := rapid.IntRange(0, 59).Draw(t, "rmdir"); (s.PollMS > 0 && die >= 48) || (s.PollMS == 0 && die == 37) {
 			return "rmdir"
 		}
+		// the path becomes unopenable
+		if rapid.IntRange(0, 11).Draw(t, "eloop") == 7 {
+			return "eloop"
+		}
 		// the second watched file changes
 		if s.Second != nil && rapid.IntRange(0, 3).Draw(t, "other") == 2 {
 			return "other"
@@ -559,6 +628,16 @@ func genC17Mech(t *rapid.T, s C17Setup, atomicOnly, rmdirOK bool) string {
 func genC17Op(t *rapid.T, s C17Setup, counter int, content string, atomicOnly, noRevert, rmdirOK bool) C17Op {
 	o := C17Op{Mech: genC17Mech(t, s, atomicOnly, rmdirOK), PauseMS: genC17Pause(t)}
 	free := content == ""
+	if !free && content == "bad" && rmdirOK && rapid.IntRange(0, 2).Draw(t, "final_eloop") == 0 {
+		o.Mech = "eloop" // a history that ends with a path that cannot be opened
+	}
+	if o.Mech == "eloop" {
+		if free || content == "bad" {
+			content = "bad"
+		} else {
+			o.Mech = "rename"
+		}
+	}
 	if o.Mech == "other" {
 		if free || content == "new" {
 			content = "new"
@@ -669,6 +748,29 @@ func genC17Ops(t *rapid.T, s C17Setup, lo, hi int, final string, noRevert bool) 
 		}
 		ops[i] = genC17Op(t, s, i+2, content, false, noRevert, true)
 	}
+	// after an eloop the next operation on the main file replaces the path
+	loop := false
+	for i := range ops {
+		o := &ops[i]
+		switch {
+		case o.Mech == "other":
+		case o.Mech == "eloop":
+			if loop {
+				o.Mech = "rename"
+				loop = false
+			} else {
+				loop = true
+			}
+		case loop:
+			if o.Mech == "inplace" {
+				o.Mech = "rename"
+			}
+			if o.Content == "same" {
+				o.Content = "restore"
+			}
+			loop = false
+		}
+	}
 	c17AvoidKnown(s, c17Ptrs(ops))
 	return ops
 }
@@ -697,7 +799,73 @@ func genC17Converge(t *rapid.T) C17Case {
 		}
 		for i := last + 1; i < len(ops); i++ {
 			if ops[i].Mech == "other" { // no change of the second file in the trailing invalid stretch
-				ops[i] = C17Op{Mech: "inplace", Content: "same", PauseMS: ops[i].PauseMS}
+				ops[i] = C17Op{Mech: "rename", Content: "bad", PauseMS: ops[i].PauseMS}
+			}
+		}
+	}
+	if s.Second != nil && endsValid && rapid.Bool().Draw(t, "coupled") {
+		// Verify couples the files: hi in documents of the main file, lo in
+		// documents of the second one. Intermediate stacks may be rejected;
+		// the initial and the final stack are made to verify.
+		bound := func() *int {
+			v := 10 * rapid.IntRange(1, 9).Draw(t, "bound")
+			return &v
+		}
+		lo0, hi0 := bound(), bound()
+		if *lo0 > *hi0 {
+			lo0, hi0 = hi0, lo0
+		}
+		sec := *s.Second
+		sec.Bound, s.Initial.Bound = lo0, hi0
+		s.Second = &sec
+		lastOther := -1
+		for i := range ops {
+			if ops[i].Content != "new" {
+				continue
+			}
+			if ops[i].Mech == "other" {
+				lastOther = i
+			}
+			if rapid.IntRange(0, 3).Draw(t, "has_bound") > 0 {
+				ops[i].Doc.Bound = bound()
+			}
+		}
+		if _, fin, _ := c17FinalStack(s, ops); fin.Verify() != nil {
+			v := fin.Hi
+			if lastOther >= 0 {
+				ops[lastOther].Doc.Bound = &v
+			} else {
+				s.Second.Bound = &v // lower than before: the initial stack still verifies
+			}
+		}
+		// Most coupled histories end with a deliberate squeeze: one file gets a
+		// content that is rejected because of the other file's current value,
+		// 30 ms later the other file changes so that the pair is acceptable.
+		if squeeze := rapid.IntRange(0, 3).Draw(t, "squeeze"); squeeze > 0 && len(ops) <= 10 {
+			_, cur, _ := c17FinalStack(s, ops)
+			mainFirst := squeeze == 1
+			if cur.Lo < 10 {
+				mainFirst = false
+			}
+			if cur.Hi >= 1<<30 {
+				mainFirst = true
+			}
+			docA, docB := genC17Doc(t, 800), genC17Doc(t, 801)
+			switch {
+			case mainFirst && cur.Lo >= 10:
+				hi := cur.Lo - 5 // below the second file's lo: rejected
+				lo := hi - rapid.IntRange(0, 1).Draw(t, "squeeze_gap")*5
+				docA.Bound, docB.Bound = &hi, &lo
+				ops = append(ops,
+					C17Op{Mech: "rename", Content: "new", Doc: docA, PauseMS: 30},
+					C17Op{Mech: "other", Content: "new", Doc: docB, Sub: rapid.Bool().Draw(t, "squeeze_inplace")})
+			case !mainFirst && cur.Hi < 1<<30:
+				lo := cur.Hi + 5 // above the main file's hi: rejected
+				hi := lo + rapid.IntRange(0, 1).Draw(t, "squeeze_gap")*5
+				docA.Bound, docB.Bound = &lo, &hi
+				ops = append(ops,
+					C17Op{Mech: "other", Content: "new", Doc: docA, PauseMS: 30},
+					C17Op{Mech: "rename", Content: "new", Doc: docB})
 			}
 		}
 	}
@@ -748,6 +916,7 @@ func c17Must(err error) {
 type c17State struct {
 	bytes []byte
 	valid bool
+	loop  bool      // the path is a self-referential symlink: it cannot be opened
 	cfg   c17Config // when valid: the document over the bare defaults
 	doc   C17Doc    // when valid
 }
@@ -772,6 +941,10 @@ func (m *c17Model) step(o C17Op) c17State {
 	m.seq++
 	if o.Mech == "other" {
 		return m.cur // the main file is not touched
+	}
+	if o.Mech == "eloop" {
+		m.cur = c17State{loop: true}
+		return m.cur
 	}
 	next := m.cur
 	switch o.Content {
@@ -939,7 +1112,15 @@ func (w *c17World) apply(o C17Op) (transientEmpty bool) {
 		w.secDoc = o.Doc
 		return false
 	}
-	b := w.step(o).bytes
+	st := w.step(o)
+	b := st.bytes
+	if st.loop {
+		// ln -s cfg.json .loop-N; mv .loop-N cfg.json
+		tmp := filepath.Join(filepath.Dir(w.real), fmt.Sprintf(".loop-%d", w.seq))
+		c17Must(os.Symlink(filepath.Base(w.real), tmp))
+		c17Must(os.Rename(tmp, w.real))
+		return false
+	}
 	var rolled *time.Time
 	defer func() { w.keepBackup(b, rolled) }()
 	switch o.Mech {
@@ -1033,6 +1214,7 @@ type c17Obs struct {
 	errs   []c17ErrRec // the first few, for messages
 	nerrs  int
 	decOld map[c17Config]bool // configs that were installed when a decoder error was delivered
+	ioOld  map[c17Config]bool // the same for *os.PathError (the file could not be opened)
 	news   int
 	logs   []string
 }
@@ -1065,6 +1247,13 @@ func (o *c17Obs) onErr(_ context.Context, err error, oldC, _ *c17Config) {
 		}
 		o.decOld[*rec.old] = true
 	}
+	var pe *os.PathError
+	if !rec.decoder && rec.old != nil && errors.As(err, &pe) && !errors.Is(err, os.ErrNotExist) {
+		if o.ioOld == nil {
+			o.ioOld = map[c17Config]bool{}
+		}
+		o.ioOld[*rec.old] = true
+	}
 	o.mu.Unlock()
 }
 
@@ -1080,6 +1269,14 @@ func (o *c17Obs) decoderErrWhile(c c17Config) bool {
 	o.mu.Lock()
 	defer o.mu.Unlock()
 	return o.decOld[c]
+}
+
+// ioErrWhile: the same for an error from opening the file (not "does not
+// exist").
+func (o *c17Obs) ioErrWhile(c c17Config) bool {
+	o.mu.Lock()
+	defer o.mu.Unlock()
+	return o.ioOld[c]
 }
 
 func (o *c17Obs) summary() string {
@@ -1359,15 +1556,51 @@ type c17Run struct {
 
 // base is everything below the main file in the stack: defaults, the leading
 // Blank's static source, the second watched file.
-func (r *c17Run) base() c17Config {
+func (r *c17Run) base() c17Config { return c17Base(r.w.s, r.w.secDoc) }
+
+// c17Base: the stack below the main file when the second file holds sec.
+func c17Base(s C17Setup, sec C17Doc) c17Config {
 	c := c17Defaults()
-	if r.w.s.Lead {
+	if s.Lead {
 		c.Keep = c17LeadKeep
 	}
-	if r.w.s.Second != nil {
-		c = c17SecondOver(r.w.secDoc, c)
+	if s.Second != nil {
+		c = c17SecondOver(sec, c)
 	}
 	return c
+}
+
+// c17Coupled: some document sets lo or hi, so Verify may reject a stack.
+func c17Coupled(s C17Setup, lists ...[]C17Op) bool {
+	if s.Initial.Bound != nil || (s.Second != nil && s.Second.Bound != nil) || (s.InstallOp != nil && s.InstallOp.Doc.Bound != nil) {
+		return true
+	}
+	for _, l := range lists {
+		for _, o := range l {
+			if o.Content == "new" && o.Doc.Bound != nil {
+				return true
+			}
+		}
+	}
+	return false
+}
+
+// c17FinalStack plays the history on the pure model: the stack of the files'
+// final contents (ok when the main file ends valid) and the initial stack.
+func c17FinalStack(s C17Setup, ops []C17Op) (initial, final c17Config, mainValid bool) {
+	m := c17ModelAtStart(s)
+	var sec C17Doc
+	if s.Second != nil {
+		sec = *s.Second
+	}
+	initial = s.Initial.over(c17Base(s, sec))
+	for _, o := range ops {
+		if o.Mech == "other" {
+			sec = o.Doc
+		}
+		m.step(o)
+	}
+	return initial, m.cur.doc.over(c17Base(s, sec)), m.cur.valid
 }
 
 // want is the whole stacked view for the current content of the files (the
@@ -1739,6 +1972,12 @@ func (r *c17Run) settleOp(ops []C17Op, i int) *vrt.Verdict {
 	if !ops[i].Settle || r.blind || !r.w.cur.valid {
 		return nil
 	}
+	if r.want().Verify() != nil {
+		// the stack of the current contents is not a valid config: Verify
+		// keeps it out, there is nothing to wait for
+		r.label("settle-skipped-unverified")
+		return nil
+	}
 	r.label("settle")
 	return r.awaitView(r.want(), fmt.Sprintf("settle step after operation %d", i), ops[:i+1])
 }
@@ -1964,6 +2203,9 @@ func c17OpLabels(s C17Setup, ops []C17Op) (bool, []string) {
 	if s.Second != nil {
 		labels = append(labels, "two-files")
 	}
+	if c17Coupled(s, ops) {
+		labels = append(labels, "verify-coupled")
+	}
 	if s.Lead {
 		labels = append(labels, "lead-blank")
 	}
@@ -2043,6 +2285,14 @@ func runC17Converge(c C17Case) vrt.Verdict {
 		// truncating rewrite, may still be installed afterwards).
 		return vrt.Discardf("malformed case: the last valid content of a history that ends invalid must be new")
 	}
+	if c17Coupled(c.C17Setup, c.Ops) {
+		// Verify (lo <= hi) may keep intermediate stacks out; the oracle is
+		// the stack of the final contents, which has to be a valid config.
+		ini, fin, mainValid := c17FinalStack(c.C17Setup, c.Ops)
+		if ini.Verify() != nil || !mainValid || fin.Verify() != nil {
+			return vrt.Discardf("malformed case: with lo/hi documents the initial and the final stack must verify and the main file must end valid")
+		}
+	}
 	burstStart := len(c.Ops) // index of the first operation inside the overflow burst
 	if c.Burst != 0 {
 		if c.Second != nil {
@@ -2119,7 +2369,13 @@ func runC17Converge(c C17Case) vrt.Verdict {
 		}
 		r.leadDoneAt(len(c.Ops), len(c.Ops))
 		// harness self-check: the model and the disk agree
-		if onDisk, err := os.ReadFile(r.w.visible); err != nil || string(onDisk) != string(r.w.cur.bytes) {
+		if onDisk, err := os.ReadFile(r.w.visible); r.w.cur.loop {
+			if !errors.Is(err, syscall.ELOOP) {
+				r.finish()
+				panic(fmt.Sprintf("harness model out of sync with the disk: want ELOOP, got %q, %v", onDisk, err))
+			}
+			r.label("final=unopenable")
+		} else if err != nil || string(onDisk) != string(r.w.cur.bytes) {
 			r.finish()
 			panic(fmt.Sprintf("harness model out of sync with the disk: %q vs %q (%v)", onDisk, r.w.cur.bytes, err))
 		}
@@ -2170,7 +2426,9 @@ func runC17Converge(c C17Case) vrt.Verdict {
 			cond := func() bool {
 				cur := *r.d.View()
 				for _, a := range accept {
-					if cur == a && r.obs.decoderErrWhile(a) {
+					// malformed content: a decoder error; a path that cannot
+					// be opened: the error of the open
+					if cur == a && ((!r.w.cur.loop && r.obs.decoderErrWhile(a)) || (r.w.cur.loop && r.obs.ioErrWhile(a))) {
 						return true
 					}
 				}
@@ -2199,7 +2457,7 @@ func runC17Converge(c C17Case) vrt.Verdict {
 					} else if k := r.classify(c.Ops); k != "" {
 						key = k
 					}
-					msg := fmt.Sprintf("final content %q is invalid: want view %+v and a decoder error delivered while it is installed; view=%+v; goroutines %s: %s\n%s",
+					msg := fmt.Sprintf("final content %q is invalid (or the path cannot be opened): want view %+v and the decoder / open error delivered while it is installed; view=%+v; goroutines %s: %s\n%s",
 						clip(string(r.w.cur.bytes), 80), accept, cur, kind, detail, r.obs.summary())
 					r.finish()
 					return vrt.KeyedViolationf(key, "%s", msg)
@@ -2229,9 +2487,14 @@ func TestC17Converge(t *testing.T) {
 			"in half of the Blank installs the file is rewritten while SetSource is still in progress (install_op: the source given to SetSource is a thin wrapper whose Watch calls the real Watch - so every inotify watch is in place -, " +
 			"then performs one in-place write or rename-over with new valid content, waits (bounded, deciding nothing) until the view shows it, and returns); whatever the order of events inside SetSource, " +
 			"the view must then hold the latest content (ordinary convergence rule, key install-stale), and the history starts from there; " +
-			"More watching sources in the same Dials, listed BEFORE the main file: (1 case in 4) a second watched file in a directory of its own that sets keep (unique per version) and sometimes limit - the main file's limit wins - " +
+			"More watching sources in the same Dials, listed BEFORE the main file: (1 case in 3) a second watched file in a directory of its own that sets keep (unique per version) and sometimes limit - the main file's limit wins - " +
 			"and is rewritten by 'other' operations (rename-over or in place) in the same history; (1 in 4) a leading sourcewrap.Blank that gets a static source (keep=lead) right after Config and calls Done() after lead_done_at operations while the file watchers go on. " +
 			"The oracle is always the WHOLE stacked view: defaults < leading Blank < second file < main file, known by construction. " +
+			"With a second file, half of the histories that end valid are Verify-coupled: the config type implements VerifiedConfig (lo <= hi), documents of the main file set hi, documents of the second file set lo; " +
+			"a content may be rejected because of the OTHER file's current value and become acceptable when that file changes. The initial and the final stack verify by construction; settle steps are skipped while the current stack does not verify; " +
+			"most of these histories end with a deliberate squeeze (one file gets a content rejected because of the other, 30 ms later the other file changes so that the pair verifies); the view must end as the stack of both files' final contents. " +
+			"Fault operation eloop: a symlink pointing at itself is renamed over the regular config file (open fails with ELOOP, not ENOENT; the next operation on the main file replaces the path wholesale). As a final state it is judged like malformed content " +
+			"(the last good stack stays installed) except that the error required through OnWatchedError is the *os.PathError of the open, not a decoder error; as an interlude the restored content must converge. " +
 			"1..12 operations {rollback: a file with an OLDER modification time is renamed over the config - the backup copy written when those bytes were current (restore / revert / identical content), " +
 			"or for new or malformed content a fresh file whose mtime is set back to 2000-01-01; the view must hold the rolled-back content like after any rename-over; remove the whole watched directory, keep it away for 0/60/150 ms, build the layout again with new content (rmdir), in-place truncate+write, temp+rename-over, ..ts-N/<link> swap or symlink retarget with or without removal of the old directory/target, delete+recreate} " +
 			"each writing new valid content (unique counter), identical bytes, malformed content, the last valid content again (restore) or the valid content before that (revert), with pauses of 0/1/30 ms from the case " +
@@ -2312,6 +2575,9 @@ func runC17Ident(c C17IdentCase) vrt.Verdict {
 	if err := c.C17Setup.validate(); err != nil {
 		return vrt.Discardf("malformed case: %v", err)
 	}
+	if c17Coupled(c.C17Setup, c.Prefix, c.Repl, []C17Op{c.Change}) {
+		return vrt.Discardf("malformed case: lo/hi documents belong to the converge check")
+	}
 	if len(c.Prefix) > 3 || len(c.Repl) < 1 || len(c.Repl) > 3 {
 		return vrt.Discardf("malformed case: %d prefix, %d repl", len(c.Prefix), len(c.Repl))
 	}
@@ -2323,7 +2589,7 @@ func runC17Ident(c C17IdentCase) vrt.Verdict {
 		return vrt.Discardf("malformed case: prefix must end with valid content")
 	}
 	for _, o := range c.Prefix {
-		if o.Mech == "rmdir" || o.Mech == "other" {
+		if o.Mech == "rmdir" || o.Mech == "other" || o.Mech == "eloop" {
 			return vrt.Discardf("malformed case: %s in the prefix", o.Mech)
 		}
 	}
@@ -2450,6 +2716,9 @@ func runC17Release(c C17ReleaseCase) vrt.Verdict {
 	}
 	if len(c.Ops) < 1 || len(c.Ops) > 12 || c.CancelAt < 0 || c.CancelAt > len(c.Ops) || !c17Pauses[c.CancelDelayMS] {
 		return vrt.Discardf("malformed case")
+	}
+	if c17Coupled(c.C17Setup, c.Ops) {
+		return vrt.Discardf("malformed case: lo/hi documents belong to the converge check")
 	}
 	if err := c17ValidOps(c.C17Setup, c.Ops, c.C17Setup.counters(), nil); err != nil {
 		return vrt.Discardf("malformed case: %v", err)
